@@ -471,6 +471,11 @@ pub const KINDS: &[Kind] = &[
     Kind { name: "dim-astral-unit", pieces: &["1.5😀"], micro: None },
     Kind { name: "dim-e", pieces: &["1e"], micro: None },
     Kind { name: "dim-exp-unit", pieces: &["1e1m"], micro: None },
+    // a unit that starts with an escaped `e` followed by a digit: written without the escape it is an exponent
+    Kind { name: "dim-escaped-e-digit-unit", pieces: &["1\\65 5"], micro: None },
+    Kind { name: "dim-escaped-e-minus-unit", pieces: &["2\\45 -3px"], micro: None },
+    Kind { name: "int-beyond-i32", pieces: &["2147483648"], micro: None },
+    Kind { name: "decimal-8-digits", pieces: &["1234567.5px"], micro: None },
     Kind { name: "unicode-range", pieces: &["U", "+26"], micro: Some(Micro::UnicodeRange) },
     Kind { name: "unicode-range-span", pieces: &["u", "+0", "-7F"], micro: Some(Micro::UnicodeRange) },
     Kind { name: "unicode-range-exp", pieces: &["U", "+1E3"], micro: Some(Micro::UnicodeRange) },
